@@ -87,6 +87,10 @@ def tokens_to_ast(
             elif token.token in CONTEXT_CLOSERS:
                 starting_token = CONTEXT_CLOSERS[token.token]
                 while operator_stack and operator_stack[-1].token != starting_token:
+                    if operator_stack[-1].token.kind is Token.Kind.CONTEXT:
+                        raise exc_for_token(
+                            token, "Could not find matching context marker."
+                        )
                     output_queue = operate(operator_stack.pop(), output_queue)
                 if operator_stack and operator_stack[-1].token == starting_token:
                     operator_stack.pop()
